@@ -48,7 +48,10 @@ fn alphabet0(b: &Built) -> Vec<Op> {
         a.push(Op::Dec { pos, part: Part::All, v2: pos % 2 == 1 });
         a.push(Op::Dec { pos, part: Part::Half, v2: pos % 2 == 0 });
         a.push(Op::Dec { pos, part: Part::One, v2: true });
+        // 2^128 - x as the amount to remove: must be refused (as a signed delta it would read +x and turn into a deposit paid OUT)
+        a.push(Op::Dec { pos, part: Part::Wrap(1_000_000_007 + pos as u64), v2: pos % 2 == 0 });
     }
+    a.push(Op::Dec { pos: 0, part: Part::Wrap(1), v2: false });
     if b.w.pool.tick_spacing == 64 {
         a.push(Op::Repos { pos: 0, lower: -64, upper: 192, liq: 123_456_789 });
         a.push(Op::Repos { pos: 0, lower: -128, upper: 128, liq: stdworlds::BIG });
@@ -189,12 +192,7 @@ fn model<'a>(b: &'a Built, stats: &'a Mutex<AmtStats>, by: &'a Mutex<ByAmt>, by_
                 Op::Inc { pos, liq, v2 } => (*pos as usize, *liq, true, *v2),
                 Op::Dec { pos, part, v2 } => {
                     let cur = w.positions[*pos as usize].state(pre).liquidity;
-                    let amt = match part {
-                        Part::All => cur,
-                        Part::Half => cur / 2,
-                        Part::One => 1.min(cur),
-                    };
-                    (*pos as usize, amt, false, *v2)
+                    (*pos as usize, part.amount(cur), false, *v2)
                 }
                 _ => return Ok(()),
             };
